@@ -2,6 +2,7 @@ package main
 
 import (
 	"fmt"
+	"go/ast"
 	"go/token"
 	"go/types"
 	"os"
@@ -31,6 +32,7 @@ type World struct {
 	dtDecls         []string              // datatype declarations in dependency order
 	dtSeen          map[string]bool       //
 	heapSorts       map[string]string     // heap name -> SMT sort
+	litOfLHS        map[token.Pos]ast.Expr
 	heapMeta        map[string]types.Type // heap name -> content type (field/elem/cell type; map type for MD/MV)
 	writes          map[*ssa.Function]map[string]bool
 	externals       map[string]bool      // external callees met without contract (assumption list)
@@ -87,6 +89,37 @@ func LoadWorld(repo string, specDirs []string) (*World, error) {
 		return nil, fmt.Errorf("packages contain errors")
 	}
 	w.fset = pkgs[0].Fset
+	// x/tools v0.29 binds the identifier on the left of `x = T{...}` / `x := T{...}` (slice or map
+	// literal) to the variable's value *before* the assignment (an address reference resolved by
+	// lifting); the literal's own DebugRef carries the new value. Record ident position -> literal.
+	w.litOfLHS = map[token.Pos]ast.Expr{}
+	for _, p := range pkgs {
+		for _, f := range p.Syntax {
+			ast.Inspect(f, func(n ast.Node) bool {
+				switch s := n.(type) {
+				case *ast.AssignStmt:
+					if len(s.Lhs) == len(s.Rhs) {
+						for i, l := range s.Lhs {
+							if id, ok := l.(*ast.Ident); ok {
+								if cl, ok := ast.Unparen(s.Rhs[i]).(*ast.CompositeLit); ok {
+									w.litOfLHS[id.Pos()] = cl
+								}
+							}
+						}
+					}
+				case *ast.ValueSpec:
+					if len(s.Names) == len(s.Values) {
+						for i, id := range s.Names {
+							if cl, ok := ast.Unparen(s.Values[i]).(*ast.CompositeLit); ok {
+								w.litOfLHS[id.Pos()] = cl
+							}
+						}
+					}
+				}
+				return true
+			})
+		}
+	}
 	prog, spkgs := ssautil.AllPackages(pkgs, ssa.GlobalDebug)
 	prog.Build()
 	w.prog = prog
